@@ -255,12 +255,22 @@ MUTATING = {"append", "extend", "insert", "add", "update", "setdefault", "pop", 
 
 @rule(
     "GLOBAL-STATE",
-    ["C12"],
+    ["C12"] + [f"C{i:02d}" for i in range(1, 21) if i != 12],
     "no function stores into / mutates a module-level mutable container (or an alias of one that it "
     "publishes into a returned structure), and no mutable default argument is mutated in its function",
     min_instances=3,
 )
 def global_state(repo, res):
+    """Findings count for C12 and for the properties anchored in the file where the state lives (process-lifetime state there makes
+    the behaviour they describe depend on earlier compilations)."""
+    _global_state(repo, res)
+    from ..registry import anchor_props
+
+    for f_ in res.findings:
+        f_.props = tuple(sorted({"C12"} | anchor_props(f_.key.split(":")[0])))
+
+
+def _global_state(repo, res):
     # memoisation decorators are process-lifetime state; harmful when the cache key conflates inputs the function tells apart
     for m in repo.modules.values():
         for f in m.funcs.values():
@@ -367,3 +377,67 @@ def global_state(repo, res):
                         bad = True
                     if bad:
                         res.fail(key, f"mutable default argument `{arg.arg}` of {f.key} is mutated: the change persists across calls", m.line(n))
+
+
+# ---- C09: the scalar type selects arithmetic and literals, never the numbers that are tabulated ------------------------
+
+NUMERIC_CHOICES = {
+    "build_optimized_tables", "clamp_table_small_numbers", "analyse_table_type", "equal_tables", "is_zeros_table", "is_ones_table", "is_quadrature_table",
+    "is_permuted_table", "is_piecewise_table", "is_uniform_table", "get_ffcx_table_values", "create_quadrature_points_and_weights", "create_quadrature",
+    "make_quadrature", "_group_integrands_by_quadrature_rule", "permute_quadrature_interval", "permute_quadrature_triangle", "permute_quadrature_quadrilateral",
+    "map_integral_points", "isclose", "allclose", "compute_argument_factorization", "build_scalar_graph", "rebuild_with_scalar_subexpressions",
+}
+
+
+class ScalarTypeClient(Config):
+    """Source: a read of the option "scalar_type"; sinks: the functions that decide tabulated values, their classification and the
+    quadrature rule. The complex-mode flag (np.issubdtype(.., np.complexfloating)) is a legitimate boolean and is not tracked."""
+
+    def is_sanitiser(self, name):
+        return False
+
+    def element_unstable(self, fa, expr):
+        return False
+
+    def clean_call(self, fa, call, name):
+        return name.split(".")[-1] in ("issubdtype", "iscomplexobj", "dtype_to_c_type", "dtype_to_scalar_dtype")
+
+    def source(self, fa, node):
+        if isinstance(node, ast.Subscript) and isinstance(node.slice, ast.Constant) and node.slice.value == "scalar_type" and isinstance(node.ctx, ast.Load):
+            return frozenset({(VAL, fa.site(node, "scalar_type"))})
+        if isinstance(node, ast.Call) and isinstance(node.func, ast.Attribute) and node.func.attr == "get" and node.args \
+                and isinstance(node.args[0], ast.Constant) and node.args[0].value == "scalar_type":
+            return frozenset({(VAL, fa.site(node, "scalar_type"))})
+        return EMPTY
+
+    def sink(self, fa, call, name):
+        last = name.split(".")[-1] if name else ""
+        if last in NUMERIC_CHOICES:
+            return f"{last}(...)"
+        return None
+
+
+@rule(
+    "TYPE-INDEPENDENT-NUMBERS",
+    ["C09"],
+    "forward taint analysis over the whole package: a value derived from the option scalar_type (other than the boolean complex-mode "
+    "flag) must not reach the functions that decide the tabulated numbers, their tolerances and classification, the quadrature rule, or "
+    "the factorisation - otherwise the float32 / float64 / complex kernels of one form are generated from different tables or rules and "
+    "differ by more than rounding",
+    min_instances=4,
+)
+def type_independent_numbers(repo, res):
+    client = ScalarTypeClient()
+    eng = _run(repo, client)
+    for fa in eng.fas.values():
+        res.functions.add(fa.func.key)
+        for n in ast.walk(fa.func.node):
+            src = client.source(fa, n)
+            if src:
+                res.ob(next(iter(src))[1])
+    for s, hits in sorted(eng.hits.items()):
+        sink, fkey, loc, kind = hits[0]
+        res.fail(s, f"a value derived from options['scalar_type'] (read at {s.rsplit(':', 2)[0]}) reaches {sink} in {fkey} ({loc})"
+                 + (f" (+{len(hits) - 1} more)" if len(hits) > 1 else "")
+                 + ": the tables / quadrature rule / tolerances then depend on the scalar type, so the four kernels of one form no longer agree to the "
+                 "precision of the narrower type", _loc_of(repo, s))
